@@ -32,7 +32,9 @@ The abstraction between the granularity of the code and of the LTS (all of it is
   store.  A steal attempt that falls between the two and goes to sleep is a stutter: the worker repeats
   the attempt after the `notify_all` of `close()`.
 * A call made after the final answer (`Ok(None)` / `Err`) is outside the LTS (its caller stops there);
-  only its return value is checked.
+  only its return value is checked.  Every `call` must be closed by exactly one `ret` before the next
+  `call` or the `drop` (`inCall`); `Proofs/MTTrace.replay_returns` uses this to show that the logged data
+  returns are the model's `delivered` list.
 * A worker whose `send` fails (receiver gone: the reader has been dropped) returns directly; in the LTS
   it passes through `chkShutdown`, where it sees the shutdown flag that `Drop` has set before.
 
